@@ -155,7 +155,7 @@ pub fn event(u: &mut Unstructured) -> Result<Ev> {
     }
     let segs = u.int_in_range(1..=3)?;
     let mdl = (0..segs).map(|_| Ok(u.choose(&["app", "db", "http", "x1", "m_2"])?.to_string())).collect::<Result<Vec<_>>>()?;
-    Ok(Ev { mdl, tpl, extent, props })
+    Ok(Ev { mdl, tpl, extent, props, layout: Default::default() })
 }
 
 /// libFuzzer entry: decode, run the file + OTLP oracles, abort (panic) on a violation that is not a
